@@ -459,7 +459,9 @@ func (n *selectNode) initFields(selectReq *mapper.Select) ([]aggregateNode, []*s
 					// So instead of a LatestCommit subquery, we need
 					// a commits query with max depth starting from the
 					// target CID version
-					commitSlct.DocID = immutable.Some(selectReq.DocIDs.Value()[0]) // @todo check length
+					if selectReq.DocIDs.HasValue() && len(selectReq.DocIDs.Value()) > 0 {
+						commitSlct.DocID = immutable.Some(selectReq.DocIDs.Value()[0])
+					}
 					commitSlct.Cid = selectReq.Cid
 					commitSlct.Depth = immutable.Some(uint64(math.MaxUint64))
 				}
